@@ -38,6 +38,24 @@ Proof. exact dom_of_split. Qed.
 Theorem C05_evalQ_sound : forall e q v, evalQ e q = Some v -> eval e (fun i => Q2R (q i)) = Q2R v.
 Proof. exact evalQ_sound. Qed.
 
+(* chain rule along any differentiable curve of environments (dv i: expression of the derivative of variable i) *)
+Theorem C05_chain_rule : forall (gam : R -> envT) (t0 : R) (dv : nat -> expr) (kb : nat) e,
+  (forall i, (i < kb)%nat -> is_derive (fun t => gam t i) t0 (eval (dv i) (gam t0))) ->
+  bounded kb e = true -> mdom e (gam t0) ->
+  is_derive (fun t => eval e (gam t)) t0 (eval (Dg dv e) (gam t0)).
+Proof. exact chain_rule. Qed.
+(* traced objectives are DAGs, emitted as straight-line programs: with the tangent of input x seeded with 1 and
+   all others with 0, running value and tangent of every instruction in turn (what the harness does with the
+   tangent expressions `reportP` prints) leaves in the tangent slot s+M of every program variable s its partial
+   derivative with respect to input x *)
+Theorem C05_ssa_correct : forall M n p r x, (n + length p <= M)%nat -> (x < n)%nat -> wf p n = true ->
+  pdomT M p n (seed M x r) ->
+  forall s, (s < n + length p)%nat ->
+    is_derive (fun t => run p n (upd r x t) s) (r x) (runT M p n (seed M x r) (s + M)%nat).
+Proof. exact ssa_correct. Qed.
+Theorem C05_tangent_finite : forall M k e r, dom e r -> dom (Dg (dvk k M) e) r.
+Proof. exact tangent_dom. Qed.
+
 (* FFT-based entry points: for ANY matrix P, weights w, amplitudes a and phases phi *)
 Theorem C05_phase_grad : forall m n P w a phi j, (j < n)%nat ->
   is_derive (fun t => objective m n P w a (upd phi j t)) (phi j) (phase_grad m n P w a phi j).
